@@ -186,7 +186,7 @@ func vfC01Gen(rt *rapid.T) vfC01Case {
 			return op
 		}
 	})
-	c.Ops = rapid.SliceOfN(opGen, 1, 60).Draw(rt, "ops")
+	c.Ops = vfListOf(rt, "ops", opGen, 1, 60)
 	// always end with a search so that every history is observed
 	var q []float32
 	if kind == Cosine {
@@ -240,6 +240,7 @@ func (m *vfVecModel) candidates(q []float32, thr float32, ids []uint32) []vfCand
 }
 
 func vfC01Run(c vfC01Case, ctx *vfCtx) *vfViolation {
+	ctx.HistoryLen("history", len(c.Ops))
 	kind := DistanceKind(c.Metric)
 	idx, err := NewFlatIndex(c.Dim, kind)
 	if err != nil {
